@@ -122,7 +122,15 @@ type UDPPeer struct {
 // Once from SetLoop(true) and once from the router. Your network router sees
 // the packets sent by the writer and destined to a routable multicast IP coming
 // in and it routes them back to your machine.
-func NewUDPPeer(ioc *sonic.IO, network string, addr string) (*UDPPeer, error) {
+func NewUDPPeer(ioc *sonic.IO, network string, addr string) (peer *UDPPeer, err error) {
+	var socket *sonic.Socket
+	defer func() {
+		// Do not leak the socket if anything below fails.
+		if err != nil && socket != nil {
+			_ = socket.Close()
+		}
+	}()
+
 	resolvedAddr, err := net.ResolveUDPAddr(network, addr)
 
 	if err != nil {
@@ -141,7 +149,7 @@ func NewUDPPeer(ioc *sonic.IO, network string, addr string) (*UDPPeer, error) {
 	}
 
 	domain := sonic.SocketDomainFromIP(resolvedAddr.IP)
-	socket, err := sonic.NewSocket(domain, sonic.SocketTypeDatagram, 0)
+	socket, err = sonic.NewSocket(domain, sonic.SocketTypeDatagram, 0)
 	if err != nil {
 		return nil, fmt.Errorf(
 			"could not create socket domain=%s err=%v", domain, err)
